@@ -285,6 +285,27 @@ def build():
     one(r"self\.params\.canonical_cmp\(\s*&other\.params\s*\)\s*$", cb, "Svcb::canonical_cmp params")
     cr = fn_body(sv, "compose_canonical_rdata", after="ComposeRecordData")
     one(r"^\s*self\.compose_rdata\(target\)\s*$", cr, "Svcb canonical form is the plain form")
+    # IPSECKEY: precedence, gateway type, algorithm, gateway, key.  A gateway
+    # name: canonical name order (IpseckeyGateway::partial_cmp) or octets?
+    ik = strip_comments(read("src/rdata/ipseckey.rs"))
+    b = impl_after(ik, r"impl<Octs,\s*OtherOcts,\s*N,\s*OtherName>\s*CanonicalOrd<Ipseckey<OtherOcts,\s*OtherName>>\s*for\s+Ipseckey<Octs,\s*N>\s*where[^{]*\{", "Ipseckey::canonical_cmp")
+    cb = fn_body(b, "canonical_cmp")
+    order = re.findall(r"self\.(precedence|gateway_type|algorithm)\.cmp\(\s*&other\.(precedence|gateway_type|algorithm)\s*\)", cb)
+    if order != [("precedence", "precedence"), ("gateway_type", "gateway_type"), ("algorithm", "algorithm")]:
+        raise GenError("Ipseckey::canonical_cmp leading fields changed: %r" % (order,))
+    one(r"self\.key\.as_ref\(\)\.cmp\(\s*other\.key\.as_ref\(\)\s*\)\s*$", cb, "Ipseckey::canonical_cmp key")
+    uses_partial = re.search(r"\.partial_cmp\(", cb) is not None
+    composed = re.search(r"IpseckeyGateway::Name\((\w+)\),\s*IpseckeyGateway::Name\((\w+)\)\)\s*=>\s*\{?\s*Some\(\s*\1\.composed_cmp\(\2\)\s*\)", cb) is not None
+    if not uses_partial and not composed:
+        raise GenError("Ipseckey::canonical_cmp: unrecognised gateway comparison")
+    gp = impl_after(ik, r"impl<N,\s*OtherName>\s*PartialOrd<IpseckeyGateway<OtherName>>\s*for\s+IpseckeyGateway<N>\s*where[^{]*\{", "PartialOrd for IpseckeyGateway")
+    one(r"\(IpseckeyGateway::Name\(n\),\s*IpseckeyGateway::Name\(o\)\)\s*=>\s*\{\s*Some\(n\.name_cmp\(o\)\)\s*\}", gp, "IpseckeyGateway::partial_cmp name arm")
+    defs.append(("ipseckey_gateway_name_composed", "bool", bool_(composed)))
+    cr = fn_body(ik, "compose_canonical_rdata", after="ComposeRecordData for Ipseckey")
+    one(r"^\s*self\.compose_rdata\(target\)\s*$", cr, "Ipseckey canonical form is the plain form")
+    hb = impl_after(ik, r"impl<N:\s*hash::Hash>\s*hash::Hash\s+for\s+IpseckeyGateway<N>\s*\{", "Hash for IpseckeyGateway")
+    m = one(r"IpseckeyGateway::None\s*=>\s*(todo!\(\)|unimplemented!\(\)|\(\)|\{\s*\})\s*,", hb, "IpseckeyGateway::hash None arm")
+    defs.append(("ipseckey_hash_none_panics", "bool", bool_(m.group(1).startswith(("todo", "unimpl")))))
     # UnknownRecordData: does == look at the type?  ZoneRecordData hashes it.
     ur = strip_comments(read("src/base/rdata.rs"))
     b = impl_after(ur, r"impl<Octs,\s*Other>\s*PartialEq<UnknownRecordData<Other>>\s*for\s+UnknownRecordData<Octs>\s*where[^{]*\{", "PartialEq for UnknownRecordData")
